@@ -681,6 +681,11 @@ func (db *DB) Begin(opts ...*sql.TxOptions) *DB {
 		err error
 	)
 
+	// a handle that already carries an error opens no transaction: nothing would ever commit or roll it back
+	if tx.Error != nil {
+		return tx
+	}
+
 	if len(opts) > 0 {
 		opt = opts[0]
 	}
